@@ -145,10 +145,6 @@ func (storage *tsstoreImpl) writeSnapshot(s *shard) {
 
 	s.activeTbl = s.memTablePool.Get(s.engineType)
 	s.activeTbl.SetIdx(s.skIdx)
-	if s.SnapShotter != nil {
-		s.SnapShotter.RaftFlushC <- true
-		atomic.StoreUint32(&s.SnapShotter.RaftFlag, 1)
-	}
 	s.snapshotLock.Unlock()
 
 	start := time.Now()
@@ -160,6 +156,15 @@ func (storage *tsstoreImpl) writeSnapshot(s *shard) {
 	err = RemoveWalFiles(walFiles)
 	if err != nil {
 		panic("wal remove files failed: " + err.Error())
+	}
+
+	// Rows applied from the raft log are not in the shard's WAL: until the table is in the data
+	// files the raft log is their only durable copy, and a restart replays it from the raft
+	// snapshot index. The snapshot may therefore be taken only now; the committed index has been
+	// frozen (RaftFlag 0) since before the table switch, so it covers nothing newer than this table.
+	if s.SnapShotter != nil {
+		s.SnapShotter.RaftFlushC <- true
+		atomic.StoreUint32(&s.SnapShotter.RaftFlag, 1)
 	}
 
 	//This fail point is used in scenarios where "s.snapshotTbl" is not recycled
